@@ -96,24 +96,33 @@ K == "Foo"
 \*   W1, W2 : module W exists but does NOT export K, and the import names K all the same (alone, or
 \*        together with a class W does export) - e.g. after K moved from W to another module
 \*   N2, N3 : nested modules (dotted paths of two and three parts)
+\*   AK, AK2, EK : the document already BINDS K: it imports it from one of the modules that export it
+\*        (alone, or next to another class of that module) -- while other live modules export a class of the
+\*        same name.  Nothing is unresolved there; a proposal to import K from another exporter would bind the
+\*        name twice and re-route every K of the document (the last import of a name wins).
 BaseKeys == {"A", "B", "C"}
 ExtKeys  == {"W1", "W2", "N2", "N3"}
+BoundKeys == {"AK", "AK2", "EK"}
 ModOf(key) == CASE key = "A" -> "A" [] key = "B" -> "B" [] key = "C" -> "C"
+                [] key \in {"AK", "AK2"} -> "A" [] key = "EK" -> "E"
                 [] key \in {"W1", "W2"} -> "W"
                 [] key = "N2" -> "Lib.Util"
                 [] key = "N3" -> "Lib.Deep.Core"
 NamesOf(key) == CASE key = "A" -> <<"Other">>
                   [] key = "B" -> <<"Bar">>
                   [] key = "C" -> <<"Cat", "Cow">>
+                  [] key \in {"AK", "EK"} -> <<K>>
+                  [] key = "AK2" -> <<"Other", K>>
                   [] key = "W1" -> <<K>>
                   [] key = "W2" -> <<"Wal", K>>
                   [] key = "N2" -> <<"Uti">>
                   [] key = "N3" -> <<"Core">>
 CommentKinds == {"none", "line", "block"}
-Layouts == {"plain", "tight", "trail", "oneline", "stray"}
+\* "local": the document itself declares a class K (K is bound without any import)
+Layouts == {"plain", "tight", "trail", "oneline", "stray", "local"}
 
 \* the exporters of K: a sequence of module names drawn from A, E and the nested module Lib.Exp
-ExporterChoices == {<<"A">>, <<"A", "E">>, <<"Lib.Exp">>}
+ExporterChoices == {<<"A">>, <<"A", "E">>, <<"Lib.Exp">>, <<"A", "E", "Lib.Exp">>}
 FooClass(n) == "class Foo {\n  function bar(): int = " \o n \o "\n}\n"
 ModuleText(m, exps) ==
   CASE m = "A" -> (IF "A" \in ToSet(exps) THEN FooClass("2") ELSE "") \o "class Other {\n  function baz(): int = 3\n}\n"
@@ -143,6 +152,7 @@ CommentText(imp) == IF imp.cmt = "line" THEN "// about " \o imp.mod ELSE "/* abo
 RestPlain == << "class Main {", "  function main(): int = Foo.bar()", "}" >>
 \* a document that already has syntax errors behind the class (the property speaks of NEW syntax errors)
 RestStray == RestPlain \o << "stray tokens" >>
+RestLocal == << "class Foo {", "  function bar(): int = 8", "}" >> \o RestPlain
 RestDoc   == << "/** The entry point. */", "class Main {", "  function main(): int = Foo.bar()", "}" >>
 RestTwo   == << "class Main {", "  function main(): int = Foo.bar()", "  function again(): int = 1 + Foo.bar()", "}",
                 "interface Last {}" >>
@@ -184,6 +194,8 @@ Render(imps, layout) ==
   LET n == Len(imps) IN
   CASE layout = "plain" ->
          Flatten([i \in 1..n |-> PlainImport(imps[i])]) \o RestPlain \o <<"">>
+    [] layout = "local" ->
+         Flatten([i \in 1..n |-> PlainImport(imps[i])]) \o RestLocal \o <<"">>
     [] layout = "stray" ->
          Flatten([i \in 1..n |-> PlainImport(imps[i])]) \o RestStray \o <<"">>
     [] layout = "tight" ->
